@@ -230,6 +230,9 @@ func jsonrtStream(rng *rand.Rand, n int, tier string, out string) (*Summary, err
 				}
 			}
 		}
+		if p.Flags["wrapper_unions"] {
+			c01WrapperBinaryProbe(p, sum)
+		}
 		fs, err := tf.write(out, "jsonrt", 150)
 		if err != nil {
 			return nil, err
@@ -240,4 +243,75 @@ func jsonrtStream(rng *rand.Rand, n int, tier string, out string) (*Summary, err
 	sum.Extra = map[string]interface{}{"case_files": files}
 	_ = os.Stderr
 	return sum, nil
+}
+
+// c01WrapperBinaryProbe: with wrapper unions the generated To_<Union> helper has a case for the
+// package's Binary type but not for []byte, which is what the JSON decoder hands it: a union
+// holding a binary member renders but cannot be unmarshalled. The tree generator therefore never
+// puts binary values into wrapper unions; this probe keeps the defect visible.
+func c01WrapperBinaryProbe(p *reg.Pkg, sum *Summary) {
+	root := p.NewRoot()
+	var hit bool
+	var walk func(v reflect.Value, depth int)
+	walk = func(v reflect.Value, depth int) {
+		if hit || depth > 4 {
+			return
+		}
+		s := v.Elem()
+		for i := 0; i < s.NumField() && !hit; i++ {
+			f := s.Field(i)
+			ft := s.Type().Field(i).Type
+			switch {
+			case ft.Kind() == reflect.Ptr && ft.Elem().Kind() == reflect.Struct && !isOrderedMapType(ft):
+				c := reflect.New(ft.Elem())
+				f.Set(c)
+				walk(c, depth+1)
+				if !hit {
+					f.Set(reflect.Zero(ft))
+				}
+			case ft.Kind() == reflect.Interface:
+				m := v.MethodByName("To_" + ft.Name())
+				if !m.IsValid() {
+					continue
+				}
+				// find the package's Binary type through the helper's accepted types
+				for _, cand := range []interface{}{[]byte{1, 2}} {
+					bt := binaryTypeOf(s.Type())
+					if bt == nil {
+						continue
+					}
+					out := m.Call([]reflect.Value{reflect.ValueOf(cand).Convert(bt)})
+					if out[1].IsNil() {
+						f.Set(out[0])
+						hit = true
+					}
+				}
+			}
+		}
+	}
+	walk(reflect.ValueOf(root), 0)
+	if !hit {
+		return
+	}
+	sum.OracleRuns++
+	m, err := ygot.ConstructIETFJSON(root, &ygot.RFC7951JSONConfig{})
+	if err != nil {
+		return
+	}
+	jb, _ := json.Marshal(m)
+	r2 := p.NewRoot()
+	if uerr, _ := safeUnmarshal(p, jb, r2); uerr != nil {
+		sum.finding(Finding{Signature: "roundtrip/wrapper-union-binary-member", What: "a wrapper union holding a binary value renders but Unmarshal rejects the rendered JSON: " + uerr.Error(), Input: map[string]interface{}{"pkg": p.Name, "json": string(jb)}})
+	}
+}
+
+// binaryTypeOf finds the generated Binary type ([]byte with a name) among the field types of t.
+func binaryTypeOf(t reflect.Type) reflect.Type {
+	for i := 0; i < t.NumField(); i++ {
+		ft := t.Field(i).Type
+		if ft.Kind() == reflect.Slice && ft.Elem().Kind() == reflect.Uint8 && ft.Name() == ygot.BinaryTypeName {
+			return ft
+		}
+	}
+	return nil
 }
